@@ -9,7 +9,8 @@
 (*     the driver harness/cmd/configquery, which feeds them to the real     *)
 (*     code.                                                                *)
 (* Kinds: "str" query string (NewQuery, NewEntriesQuery, Path/Raw/          *)
-(* AbsoluteRaw; "near" = the single-token edits of well-formed strings),    *)
+(* AbsoluteRaw; "near" = the single-token edits of well-formed strings,     *)
+(* "sweep" = every token of the alphabet at every position of a few),        *)
 (* "par" parameter string (NewQueryParameters), "res" resolution against a  *)
 (* backend, "rnd" payload rendering.                                        *)
 (***************************************************************************)
@@ -55,6 +56,16 @@ Edits1(b) == { SubSeq(b, 1, i) \o <<x>> \o SubSeq(b, i + 1, Len(b)) : i \in 0..L
              \cup { SubSeq(b, 1, i - 1) \o SubSeq(b, i + 1, Len(b)) : i \in 1..Len(b) }                       \* delete
 NearCases == {[k |-> "str", s |-> s] : s \in NMBase \cup UNION {Edits1(b) : b \in NMBase}}
 
+(* --- "sweep": EVERY token (all of printable ASCII, the non-ASCII ones, the words) inserted at / put in place of every
+       position of a few well-formed strings: the grammar of the model decides which of them are still well formed --- *)
+SweepBase == { <<"a", "/", "P", "/", "a", "/", "a">>, <<"X", "7", "/", "A", "/", "r", "_", "/", "e", "/", "0">>,
+               <<"-", "/", "P", "/", "~A", "/", "/">>, <<"q", "c", "/", "A", "/", "a", "n", "y">>, <<"a", "/", "P", "/", "a">> }
+EditsWith(b, T) == { SubSeq(b, 1, i) \o <<x>> \o SubSeq(b, i + 1, Len(b)) : i \in 0..Len(b), x \in T }
+                   \cup { SubSeq(b, 1, i - 1) \o <<x>> \o SubSeq(b, i + 1, Len(b)) : i \in 1..Len(b), x \in T }
+SweepCases == {[k |-> "str", s |-> s] : s \in UNION {EditsWith(b, Tok) : b \in SweepBase}}
+ParSweepBase == { <<"a", "=", "a">>, <<"a", "-", "=", "Q", "x", "Q", "&", "p", "=", "t">>, <<"b", "=", "[", "0", ",", "1", "]">> }
+ParSweepCases == {[k |-> "par", s |-> s] : s \in UNION {EditsWith(b, Tok) : b \in ParSweepBase}}
+
 (* --- "par" --- *)
 RECURSIVE JoinPairs(_)
 JoinPairs(ps) == IF ps = <<>> THEN <<>>
@@ -78,7 +89,7 @@ RndCases ==
   {[k |-> "rnd", parts |-> p, sib |-> sb[2], hasSib |-> sb[1], vars |-> vs] :
      p \in Seqs(RndAtoms, 1, RndMaxParts), sb \in ({<<FALSE, <<>> >>} \cup {<<TRUE, x>> : x \in RndSibs}), vs \in RndVars}
 
-AllCases == (IF "str" \in Kinds THEN StrCases ELSE {}) \cup (IF "near" \in Kinds THEN NearCases ELSE {}) \cup (IF "par" \in Kinds THEN ParCases ELSE {})
+AllCases == (IF "str" \in Kinds THEN StrCases ELSE {}) \cup (IF "near" \in Kinds THEN NearCases ELSE {}) \cup (IF "sweep" \in Kinds THEN SweepCases \cup ParSweepCases ELSE {}) \cup (IF "par" \in Kinds THEN ParCases ELSE {})
             \cup (IF "res" \in Kinds THEN ResCases ELSE {}) \cup (IF "rnd" \in Kinds THEN RndCases ELSE {})
 
 Init == case \in AllCases
